@@ -65,8 +65,10 @@ func vArbClaim(target string) *vClaim {
 		c.addr = vBytes(4)
 		c.port = vU16()
 		c.meta = vBytes(vPick(2))
-		if vPick(2) == 1 {
-			c.vsn = vBytes(6)
+		// version vector: absent, one byte short of complete, complete (thorough: also the 3-byte form)
+		c.vsn = vBytes([]int{0, 6, 5, 3}[vPick(3+vTier())])
+		if len(c.vsn) == 0 {
+			c.vsn = nil
 		}
 	}
 	return c
